@@ -140,7 +140,9 @@ pub fn gen_resolving_unit(rng: &mut Rng, t: &RTree, level: usize, first: bool) -
             return (g, handler, nl);
         }
     }
-    panic!("harness: could not generate a resolving unit");
+    // e.g. an ambiguous / degenerate tree in which (almost) nothing resolves uniquely: fall back to any unit
+    let g = gen_unit(rng, t, level, first, false);
+    (g, usize::MAX, 0)
 }
 
 /// A header that resolves nowhere from `level`
